@@ -169,6 +169,30 @@ pub fn check_large(_alg: Algorithm, inp: &super::large::LargeInput) -> Result<(b
             }
         }
     }
+    // more than 2^16 distinct lines in total: the ids TextDiff interns the lines into are a
+    // relabelling like any other, so the line diff must be the diff of the items themselves
+    if inp.name.starts_with("wide-") {
+        let to: String = old.iter().map(|x| format!("{}\n", x)).collect();
+        let tn: String = new.iter().map(|x| format!("{}\n", x)).collect();
+        for &alg in [Algorithm::Myers, Algorithm::Patience].iter() {
+            let (a, b) = subject(|| {
+                similar::verif::set_hash_seed(None);
+                (TextDiff::configure().algorithm(alg).diff_lines(&to[..], &tn[..]).ops().to_vec(), cap(alg, old, new))
+            })
+            .map_err(|p| format!("line diff: panic: {}", p))?;
+            runs += 2;
+            if a != b {
+                return Err(format!(
+                    "{}: the line diff of {} vs {} distinct lines ({} ops) differs from the diff of the same items as integers ({} ops): the result depends on more than the equality pattern",
+                    alg_name(alg),
+                    old.len(),
+                    new.len(),
+                    a.len(),
+                    b.len()
+                ));
+            }
+        }
+    }
     Ok((true, runs, ops_fp(&reference)))
 }
 
@@ -533,6 +557,27 @@ pub fn run(cfg: &RunCfg) -> CheckReport {
     super::large::run_part(cfg, &mut rep, &[Algorithm::Patience], &|_| usize::MAX, check_large);
     if rep.has_violation() {
         return rep;
+    }
+    {
+        let wide = super::large::wide();
+        let ex = explore(cfg, wide.len(), |shard, acc| {
+            let inp = &wide[shard];
+            match check_large(Algorithm::Patience, inp) {
+                Ok((nt, tr, fp)) => {
+                    acc.sample(super::large::case_json(Algorithm::Patience, inp, cfg.seed));
+                    acc.ok(nt, tr, fp);
+                }
+                Err(e) => acc.violation(|| (super::large::case_json(Algorithm::Patience, inp, cfg.seed), format!("{}: {}", inp.name, e))),
+            }
+        });
+        rep.part(
+            "more-than-2^16-distinct-lines",
+            json!({"inputs": wide.iter().map(|i| i.name.clone()).collect::<Vec<_>>(), "oracle": "seeds / orders / relabelling as in the large part; line diff (interned ids) == diff of the items as integers, Myers and Patience", "kind": "enumerated family, not exhaustive"}),
+            ex,
+        );
+        if rep.has_violation() {
+            return rep;
+        }
     }
 
     let rspace = PairSpace::new(match cfg.tier {
